@@ -123,10 +123,16 @@ int main(int argc, char** argv) {
             if (!strcmp(n, "heap_reuse") && o != 16L * t) t2.wrong_obs++;
             if (!strcmp(n, "tls") && o != 2L * t + 3) t2.wrong_obs++;
             if (!strcmp(n, "atomic_shared_ptr") && o != 5) t2.wrong_obs++;
+            if (!strcmp(n, "async") && o != 100 + t) t2.wrong_obs++;
+            if (!strcmp(n, "daemon") && o != 1000 + t) t2.wrong_obs++;
+            if (!strcmp(n, "async_many") && o != 60L * t + 1770) t2.wrong_obs++;
+            if (!strcmp(n, "detach") && t == 0 && o != 7) t2.wrong_obs++;
+            if (!strcmp(n, "spawn_join") && t == 0 && o != 1) t2.wrong_obs++;
           }
           if (!strcmp(n, "mutex") && shm->counter != 5 * nt) t2.lost_update++;
           if (!strcmp(n, "scoped_lock") && shm->counter != 3 * nt) t2.lost_update++;
           if (!strcmp(n, "tagged_cas") && shm->counter != 4 * nt) t2.lost_update++;
+          if (!strcmp(n, "spawn_join") && shm->counter != 10 + nt) t2.lost_update++;
           if (!strcmp(n, "check_then_act") && shm->counter != nt) t2.lost_update++;
         }
       }
@@ -139,7 +145,7 @@ int main(int argc, char** argv) {
     need(h1 == h2, "not deterministic");
     need(ty.unsupported == 0, "unsupported primitive");
     need(ty.crashed == 0, "crashed");
-    bool expect_race = !strcmp(n, "plain_race") || !strcmp(n, "publish_relaxed") || !strcmp(n, "publish_early") || !strcmp(n, "rwlock_bad") || !strcmp(n, "fence_missing");
+    bool expect_race = !strcmp(n, "plain_race") || !strcmp(n, "publish_relaxed") || !strcmp(n, "publish_early") || !strcmp(n, "rwlock_bad") || !strcmp(n, "fence_missing") || !strcmp(n, "spawn_race") || !strcmp(n, "detach");
     if (expect_race) need(ty.race > 0, "race not detected");
     else need(ty.race == 0, "false race");
     if (!strcmp(n, "plain_race") || !strcmp(n, "rwlock_bad")) need(ty.race == ty.runs, "race must be reported in every run that contains both accesses");
